@@ -42,6 +42,12 @@ ASSUMPTIONS = [
     "CONF_CHANGED names each changed option once, in config/names order, one line per value; the tagged class "
     "'case-variant' spells the option name in another case than config/names (Tor itself does not)",
     "socks_endpoint() is judged only when Tor holds at least one SOCKSPort entry",
+    "tagged class 'reset of an always-valued type': CONF_CHANGED may name a Boolean/Integer/Float/... option by its bare "
+    "keyword (Tor itself always prints a value for those); the read must then be the parsed config/defaults entry, or the "
+    "DEFAULT marker when none is known",
+    "class 'during-attach': CONF_CHANGED events are delivered between the GETCONF round trips of the attach (before or "
+    "after the reply of the k-th GETCONF), for options already fetched and not yet fetched; the finished view is compared "
+    "with what Tor holds then",
 ]
 TRUSTED_BASE = ["vf.faketor.conftor.ConfTor", "vf.faketor.conftor.read_matches / ref_read", "vf.refs.kvline", "vf.refs.reply"]
 ANCHORS = [
@@ -125,6 +131,10 @@ def gen_event(rnd, table):
         typ = o["type"]
         shape = rnd.choice(["unset", "single", "multi", "multi"])
         vals = CT.gen_values(rnd, typ, shape)
+        if shape == "unset" and CT.kind_of(typ) == "scalar" and typ not in CT.STR_TYPES and rnd.random() < 0.6:
+            # tagged class "reset of an always-valued type": the option is announced with its bare keyword
+            # (DESIGN C11 L keeps this out of GETCONF; the statement's "zero values" covers it for events)
+            vals = []
         if not vals:
             items.append([o["name"], None])
         else:
@@ -159,7 +169,7 @@ def natural(typ, raw):
 
 
 def gen_case(rnd, mode):
-    if mode == "boot":
+    if mode in ("boot", "attach"):
         table = CT.gen_table(rnd, every_type=rnd.random() < 0.7)
         nsteps = rnd.choice([0, 1, 2, 3])
     else:
@@ -167,6 +177,14 @@ def gen_case(rnd, mode):
         nsteps = rnd.choice([2, 3, 4, 6, 8, 10])
     case = {"mode": mode, "table": table, "no_defaults": rnd.random() < 0.25, "echo": rnd.random() < 0.5,
             "spell": {o["name"]: CT.anycase(rnd, o["name"]) for o in table}, "steps": []}
+    if mode == "attach" or rnd.random() < 0.15:
+        # another controller changes options while the attach is fetching them (one GETCONF round trip each)
+        nget = len(table)
+        case["attach_events"] = []
+        for at in sorted(rnd.sample(range(nget), min(nget, rnd.choice([1, 1, 2, 3])))):
+            ev = gen_event(rnd, table)
+            case["attach_events"].append({"at": at, "when": rnd.choice(["before-reply", "after-reply"]),
+                                          "items": ev["items"]})
     listy = [o for o in table if CT.is_listy(o["type"])]
     scalars = [o for o in table if not CT.is_listy(o["type"])]
     for i in range(nsteps):
@@ -362,10 +380,46 @@ class Run(object):
 
     def _run(self):
         case, rec = self.case, self.rec
-        cfg, fail, proto, tor, link = CT.boot(case["table"], no_defaults=case["no_defaults"], echo=case["echo"])
-        self.cfg, self.tor, self.link = cfg, tor, link
         for o in case["table"]:
             self.touch[o["name"]] = boot_class(o, case["no_defaults"])
+        pending_ev = {}
+        for ev in case.get("attach_events") or []:
+            pending_ev[(ev["at"], ev["when"])] = ev
+        seen = {"getconf": -1, "fetched": []}
+
+        def fire(tor, key):
+            ev = pending_ev.pop(key, None)
+            if ev is None:
+                return
+            changed = tor.external_change([(k, v) for k, v in ev["items"]])
+            if not changed:
+                rec.count("attach_events_without_change")
+                return
+            rec.count("attach_events_delivered")
+            fetched = {x.lower() for x in seen["fetched"]}
+            if key[1] == "before-reply" and seen["fetched"]:
+                fetched.discard(seen["fetched"][-1].lower())      # its GETCONF is answered after the change
+            for n in changed:
+                if n in self.table:
+                    o = self.table[n]
+                    self.touch[n] = "%s+%s+during-attach+%s" % (
+                        klass(o), count_class(o, tor.conf.get(n)),
+                        "already-fetched" if n.lower() in fetched else "not-yet-fetched")
+                    rec.seen("attach_classes", self.touch[n])
+
+        def on_line(tor, line):
+            if line.upper().startswith("GETCONF ") and not line.split()[1].startswith("__"):
+                seen["getconf"] += 1
+                seen["fetched"].append(line.split()[1])
+                fire(tor, (seen["getconf"], "before-reply"))
+
+        def after_reply(tor, line, code):
+            if line.upper().startswith("GETCONF ") and not line.split()[1].startswith("__"):
+                fire(tor, (seen["getconf"], "after-reply"))
+
+        hooks = dict(on_line=on_line, after_reply=after_reply) if pending_ev else {}
+        cfg, fail, proto, tor, link = CT.boot(case["table"], no_defaults=case["no_defaults"], echo=case["echo"], **hooks)
+        self.cfg, self.tor, self.link = cfg, tor, link
         self.boot_touch = dict(self.touch)
         if cfg is None:
             exc = getattr(fail, "value", fail)
@@ -473,6 +527,8 @@ def replay(case, rec):
 
 def plan(tier, seed):
     if tier == "quick":
-        return [{"mode": "boot", "n": 230} for _ in range(6)] + [{"mode": "events", "n": 190} for _ in range(10)]
-    return [{"mode": "boot", "n": 2000, "timeout_s": 3000} for _ in range(12)] + \
+        return [{"mode": "boot", "n": 230} for _ in range(4)] + [{"mode": "attach", "n": 230} for _ in range(2)] + \
+            [{"mode": "events", "n": 190} for _ in range(10)]
+    return [{"mode": "boot", "n": 2000, "timeout_s": 3000} for _ in range(9)] + \
+           [{"mode": "attach", "n": 2000, "timeout_s": 3000} for _ in range(5)] + \
            [{"mode": "events", "n": 1700, "timeout_s": 3000} for _ in range(20)]
